@@ -41,6 +41,8 @@ type fnSpec struct {
 	effects      bool
 	consts       map[string]string // package-level constants the function names (checked against the source)
 	typeMap      map[string]string // Go struct name -> schema name, where this function needs a different view
+	recvType     string // the method's receiver type (as written), to tell methods of the same name apart
+	recvIsParam  bool   // the receiver is a value the function works on: it is the first parameter
 	errChan      bool // errors are reported by sending on errCh (recorded as effects), not returned
 	loop         bool // translate one iteration of the receive loop inside the function (see translate)
 	uses         map[string]bool // translated functions this one calls (filled while translating)
@@ -56,6 +58,70 @@ func (f *fnSpec) isState(r string) bool {
 }
 
 var specs = []fnSpec{
+	{
+		file: "server/server.go", goName: "Equal", recvType: "*clientParams", recvIsParam: true, callAs: "*.Equal", leanName: "clientParamsEqual",
+		params: []param{
+			{goName: "cp", goType: "*clientParams", lean: "cp", kd: kPtr("clientParams"), nonnil: true},
+			{goName: "n", goType: "*clientParams", lean: "n", kd: kPtr("clientParams"), nonnil: true},
+		},
+		goRets: "bool", rets: []string{"bool"},
+	},
+	{
+		file: "server/server.go", goName: "newClient", recvType: "*Server", callAs: "s.newClient", leanName: "newClient",
+		params:  []param{{goName: "id", goType: "string", lean: "id", kd: kStr}},
+		goRets:  "error", rets: []string{"err"},
+		state:   []stateField{{goExpr: "s.cs", lean: "cs", kd: kind{k: "map", s: "clientState"}}},
+	},
+	{
+		file: "server/server.go", goName: "deleteClient", recvType: "*Server", callAs: "s.deleteClient", leanName: "deleteClient",
+		params:  []param{{goName: "id", goType: "string", lean: "id", kd: kStr}},
+		goRets:  "", rets: []string{},
+		state:   []stateField{{goExpr: "s.cs", lean: "cs", kd: kind{k: "map", s: "clientState"}}},
+	},
+	{
+		file: "server/server.go", goName: "updateParams", recvType: "*Server", callAs: "s.updateParams", leanName: "updateParams",
+		params: []param{
+			{goName: "id", goType: "string", lean: "id", kd: kStr},
+			{goName: "params", goType: "*spb.SessionParameters", lean: "params", kd: kPtr("SessionParameters"), nonnil: true},
+		},
+		goRets: "error", rets: []string{"err"},
+		state:  []stateField{{goExpr: "s.cs", lean: "cs", kd: kind{k: "map", s: "clientState"}}},
+	},
+	{
+		file: "server/server.go", goName: "checkClientsConsistent", recvType: "*Server", callAs: "s.checkClientsConsistent", leanName: "checkClientsConsistent",
+		params: []param{
+			{goName: "id", goType: "string", lean: "id", kd: kStr},
+			{goName: "p", goType: "*clientParams", lean: "p", kd: kPtr("clientParams")},
+		},
+		goRets: "bool, error", rets: []string{"bool", "err"},
+		state:  []stateField{{goExpr: "s.cs", lean: "cs", kd: kind{k: "map", s: "clientState"}}},
+	},
+	{
+		file: "server/server.go", goName: "setClientParams", recvType: "*Server", callAs: "s.setClientParams", leanName: "setClientParams",
+		params: []param{
+			{goName: "id", goType: "string", lean: "id", kd: kStr},
+			{goName: "p", goType: "*clientParams", lean: "p", kd: kPtr("clientParams"), nonnil: true},
+		},
+		goRets: "error", rets: []string{"err"},
+		state:  []stateField{{goExpr: "s.cs", lean: "cs", kd: kind{k: "map", s: "clientState"}}},
+	},
+	{
+		file: "server/server.go", goName: "storeClientElectionID", recvType: "*Server", callAs: "s.storeClientElectionID", leanName: "storeClientElectionID",
+		params: []param{
+			{goName: "id", goType: "string", lean: "id", kd: kStr},
+			{goName: "elecID", goType: "*spb.Uint128", lean: "elecID", kd: kPtr("Uint128")},
+		},
+		goRets: "bool", rets: []string{"bool"},
+		state:  []stateField{{goExpr: "s.cs", lean: "cs", kd: kind{k: "map", s: "clientState"}}},
+	},
+	{
+		file: "server/server.go", goName: "getClientStateCopy", recvType: "*Server", callAs: "s.getClientStateCopy", leanName: "getClientStateCopy",
+		params:  []param{{goName: "id", goType: "string", lean: "id", kd: kStr}},
+		goRets:  "*clientState, error", rets: []string{"ptr:clientState", "err"},
+		oracles: map[string]oracle{"*.DeepCopy": {results: []string{"$recv"}}},
+		state:   []stateField{{goExpr: "s.cs", lean: "cs", kd: kind{k: "map", s: "clientState"}}},
+	},
+
 	{
 		file: "server/server.go", goName: "doModify", callAs: "s.doModify", leanName: "doModify", errChan: true,
 		params: []param{
